@@ -117,3 +117,9 @@ pub fn write_docs(out_dir: &Path) {
 
 #[cfg(test)]
 mod test;
+
+/// Verification hook: the root symbol table of the standard library.
+#[cfg(resynth_verif)]
+pub fn root() -> &'static Module {
+    &STDLIB
+}
